@@ -75,7 +75,10 @@ impl Runner {
         }
     }
     pub fn pick_to(&mut self, sender: &str) -> Option<AddrRef> {
-        match self.rng.weighted(&[70, 14, 8, 5, 3]) {
+        match self.rng.weighted(&[70, 14, 8, 5, 3, 2]) {
+            5 => Some(AddrRef::Raw(
+                self.rng.pick(&["", "ab", "TRADER", "Whale", "tra der", "y".repeat(60).as_str()]).to_string(),
+            )),
             0 => None,
             1 => {
                 let a = self.random_actor();
@@ -500,7 +503,11 @@ impl Runner {
         let receiver = if setup {
             None
         } else {
-            match self.rng.weighted(&[78, 12, 5, 3, 2]) {
+            match self.rng.weighted(&[78, 12, 5, 3, 2, 2]) {
+                5 => Some(AddrRef::Raw(
+                    // strings that are not valid addresses
+                    self.rng.pick(&["", "ab", "LPONE", "Trader", "lp one", "x".repeat(60).as_str()]).to_string(),
+                )),
                 0 => None,
                 1 => Some(AddrRef::Actor(self.random_actor())),
                 2 => Some(AddrRef::Actor(BYSTANDERS[self.rng.pick_idx(2)].to_string())),
